@@ -294,6 +294,18 @@ def main():
             all_tool.append({"kind": "timeout", "message": "verus timed out on %s" % unit})
             continue
         fails, tools = triage(unit, gen, vr, ucfg)
+        if any(x["kind"] == "rlimit" for x in tools):
+            # a resource limit hides whether an obligation fails: retry once with a large limit for a definite answer
+            vr2 = run_verus(path, None, extra + ["--rlimit", "300"], timeout=1500)
+            cmds.append(" ".join(vr2["cmd"]))
+            if not vr2["timeout"]:
+                f2, t2 = triage(unit, gen, vr2, ucfg)
+                # keep definite failures from both runs; tool errors only from the retry
+                seen = set(x["obligation"] for x in fails)
+                fails = fails + [x for x in f2 if x["obligation"] not in seen]
+                tools = t2
+                if vr2["json"] is not None:
+                    vr["json"] = vr2["json"]
         nobl = count_obligations(logdir)
         total_obl += nobl
         js = vr["json"] or {}
